@@ -2,7 +2,8 @@
 # tools/take_seed.sh <Cxx> <suffix> <check ids...>: copy /tmp/mut/<Cxx><suffix>/_seed to seeded/<Cxx>-<suffix>, try it from
 # the stable worktree /work/stable (so that in-progress Lean edits in /verif do not interfere), remove the scratch worktree
 ID=$1; SUF=$2; shift; shift
-SRC=/tmp/mut/$ID$SUF/_seed
+W=/tmp/mut/$ID$SUF; [ -d "$W" ] || W=/tmp/mut/$ID
+SRC=$W/_seed
 DST=/verif/seeded/$ID-$SUF
 mkdir -p $DST && cp $SRC/patch.diff $SRC/demo.py $DST/ && cp $SRC/notes.md $DST/ 2>/dev/null
 cd /repo || exit 2
@@ -13,4 +14,4 @@ echo "--- demo (changed):"; (cd /tmp && timeout 300 /venv/bin/python "$DST/demo.
 for id in "$@"; do echo "--- check $id:"; (cd /work/stable && timeout 2400 ./check $id 2>&1 | grep -E "VIOLATION|^C[0-9]+ |INFRA|TIMEOUT|KNOWN" | head -6); done
 git -C /repo checkout -- . ; git -C /repo status --short | head -3
 git -C /work/stable checkout -- . 2>/dev/null
-git -C /repo worktree remove --force /tmp/mut/$ID$SUF
+git -C /repo worktree remove --force $W
